@@ -248,6 +248,61 @@ theorem finish_hands_over (cfg : Cfg) (s : State) (c : Nat) (cbErr : Bool) (cl :
     refine ⟨rfl, by simp, fun x hx => ?_⟩
     simpa using (List.mem_filter.mp hx).2
 
+/-- **A refused set is not exchanged.** Whatever step returns control to the caller: when the
+internal subscribers (the peer exchange of `StoreInternal`) are called, the call reports no error —
+a set of which the node's own store refused an entry (e.g. a second, different signature of this
+node's share for a validator it already signed for) is never handed on to the peers, so an honest
+share backs at most one signing root on the wire. -/
+theorem internal_exchange_only_on_success (cfg : Cfg) (s : State) (op : Op) (err : Option Err)
+    (cb : List Trigger) (h : (step cfg s op).2 = .ret err cb true) : err = none := by
+  cases op with
+  | «begin» c duty st batch internal =>
+    simp only [step] at h
+    split at h
+    · cases h
+    · cases st <;> simp at h <;> first | exact h.1.symm | skip
+  | step c o =>
+    simp only [step] at h
+    cases hc : s.calls c with
+    | none => rw [hc] at h; cases h
+    | some cl =>
+      rw [hc] at h
+      simp only at h
+      cases hr : cl.rest with
+      | nil => rw [hr] at h; cases h
+      | cons e rest =>
+        rw [hr] at h
+        simp only at h
+        cases hsub : e.sub with
+        | none =>
+          rw [hsub] at h
+          simp only [failEntry] at h
+          split at h <;> cases h
+        | some sub =>
+          rw [hsub] at h
+          simp only at h
+          split at h
+          · simp only [failEntry] at h
+            split at h <;> cases h
+          · cases h
+          · split at h <;> cases h
+  | finish c cbErr =>
+    simp only [step] at h
+    cases hc : s.calls c with
+    | none => rw [hc] at h; cases h
+    | some cl =>
+      rw [hc] at h
+      simp only at h
+      split at h
+      · cases h
+      · simp only [Out.ret.injEq] at h
+        obtain ⟨h1, _, h3⟩ := h
+        rw [← h1]
+        cases hx : (if (!(pendOf s c).isEmpty && cbErr) = true then some Err.cb else cl.err) with
+        | none => rfl
+        | some x => rw [hx] at h3; simp at h3
+  | trim d => simp [step] at h
+
 /-- **An eviction needs a full cap** (scope of the D-2 hypothesis `Untouched`): a step removes a
 stored partial through the exempt cap only if the duty is exempt and the storing share already
 tracks `cap` distinct exempt duties for that validator and duty type. -/
